@@ -4,6 +4,7 @@ pub mod c01;
 pub mod c03;
 pub mod c04;
 pub mod c13;
+pub mod c14;
 
 pub fn run(ctx: &mut Ctx) -> bool {
     match ctx.prop.as_str() {
@@ -11,6 +12,7 @@ pub fn run(ctx: &mut Ctx) -> bool {
         "C03" => c03::run(ctx),
         "C04" => c04::run(ctx),
         "C13" => c13::run(ctx),
+        "C14" => c14::run(ctx),
         _ => return false,
     }
     true
